@@ -29,8 +29,9 @@ MathFile == D.math     \* reference table for C12 (empty otherwise), see Query.t
 VARIABLES c,       \* case index
           pc,      \* "new" | "translated" | "compiled" | "booked" | "dead" | "done"
           run, pos,
-          judged, skipped
-tvars == <<c, pc, run, pos, judged, skipped>>
+          judged, skipped,   \* events judged / outside the quantified domain
+          nfault, nrow       \* vacuity counters: events whose denotation is a fault / has >= 1 row
+tvars == <<c, pc, run, pos, judged, skipped, nfault, nrow>>
 
 Case == Cases[c]
 Q == Case.q
@@ -119,22 +120,23 @@ StateFails(o, r) ==
 ----------------------------------------------------------------------------
 (* the behaviour of one case *)
 TInit == /\ c \in 1..Len(Cases) /\ pc = "new" /\ run = 0 /\ pos = 0 /\ judged = 0 /\ skipped = 0
+         /\ nfault = 0 /\ nrow = 0
 
 Finish == /\ pc' = "done"
-          /\ PrintT(<<"SUMMARY", Case.id, judged, skipped>>)
-          /\ UNCHANGED <<c, run, pos, judged, skipped>>
+          /\ PrintT(<<"SUMMARY", Case.id, judged, skipped, nfault, nrow>>)
+          /\ UNCHANGED <<c, run, pos, judged, skipped, nfault, nrow>>
 
 Translate ==
   /\ pc = "new"
   /\ ReportAll(TranslateFails \cup WarnFails, 0, 0)
   /\ IF Case.translate.outcome = "ok" /\ Case.support # "MUST_REJECT"
-     THEN pc' = "translated" /\ UNCHANGED <<c, run, pos, judged, skipped>>
+     THEN pc' = "translated" /\ UNCHANGED <<c, run, pos, judged, skipped, nfault, nrow>>
      ELSE Finish
 
 Compile ==
   /\ pc = "translated"
   /\ ReportAll(CompileFails \cup LibFails, 0, 0)
-  /\ IF Case.compile.ok THEN pc' = "compiled" /\ UNCHANGED <<c, run, pos, judged, skipped>> ELSE Finish
+  /\ IF Case.compile.ok THEN pc' = "compiled" /\ UNCHANGED <<c, run, pos, judged, skipped, nfault, nrow>> ELSE Finish
 
 NextRun ==
   /\ pc \in {"compiled", "booked", "dead"}
@@ -143,7 +145,7 @@ NextRun ==
      ELSE LET b == Case.runs[run + 1].booked IN
           /\ ReportAll(BookFails(b) \cup TokenFails(b), run + 1, 0)
           /\ pc' = "booked" /\ run' = run + 1 /\ pos' = 0
-          /\ UNCHANGED <<c, judged, skipped>>
+          /\ UNCHANGED <<c, judged, skipped, nfault, nrow>>
 
 ProcessEvent ==
   /\ pc = "booked" /\ pos < Len(Case.runs[run].events)
@@ -155,6 +157,9 @@ ProcessEvent ==
      /\ pc' = IF o.fault = "none" THEN "booked" ELSE "dead"
      /\ IF Skipped(o) THEN skipped' = skipped + 1 /\ UNCHANGED judged
         ELSE judged' = judged + 1 /\ UNCHANGED skipped
+     /\ LET want == Rows(Q, Events[o.e]) IN
+        /\ nfault' = nfault + (IF IsFault(want) THEN 1 ELSE 0)
+        /\ nrow' = nrow + (IF ~Bad(want) /\ Len(want.v) > 0 THEN 1 ELSE 0)
      /\ UNCHANGED <<c, run>>
 
 TNext == Translate \/ Compile \/ NextRun \/ ProcessEvent
